@@ -623,7 +623,7 @@ def compare_tokens(run: Run, cases: list[tuple[str, list]], origin: str = 'gen')
         st.count('impl:' + ('error' if ci == 'ERR' else ('other:' + ci if is_err(ci) else 'tree')))
         st.count('spec:' + ('error' if cs == 'ERR' else 'tree'))
         if a['rel'] != '1':
-            run.disagree(Disagreement(case, ci, cm, what='model-tree-not-a-relaxed-derivation'))
+            run.disagree(Disagreement(case, ci, cm, what='model-or-reference-parser-inconsistent-with-theorems'))
         for f in a['trig']:
             st.count('trigger:' + f)
         if ci != cs:
@@ -1034,8 +1034,86 @@ def search(run: Run):
     return sub.disagreements
 
 
+def parse_line(line: str):
+    fs = dict(kv.split('=', 1) for kv in line.split(' '))
+    toks = []
+    for t in fs['T'].split(','):
+        if t[0] == 'a':
+            k, n = t[1:].split('.')
+            toks.append(('a', int(k), int(n)))
+        else:
+            toks.append((t[0], int(t[1:])))
+    return fs['V'], toks
+
+
+def reductions(toks: list):
+    """smaller token lists: drop a balanced bracket span, unwrap a group, drop `op operand`, `operand op`,
+    a prefix operator, a typed suffix"""
+    n = len(toks)
+    match = {}
+    stack = []
+    for i, t in enumerate(toks):
+        if t[0] == 'o' and i + 1 < n:
+            stack.append(i)
+        if t[0] == 'c':
+            # closers match the nearest unmatched opener candidate (brackets only)
+            while stack:
+                j = stack.pop()
+                match[j] = i
+                break
+    out = []
+    for i, t in enumerate(toks):
+        if t[0] == 'o' and i in match:
+            j = match[i]
+            out.append(toks[:i] + toks[j + 1:])                    # drop the whole bracket span
+            out.append(toks[:i] + toks[i + 1:j] + toks[j + 1:])    # unwrap
+            out.append(toks[:i] + [('a', 0, 1)] + toks[j + 1:])    # replace by an operand
+        if t[0] == 'o':
+            if i + 1 < n and toks[i + 1][0] == 'a':
+                out.append(toks[:i] + toks[i + 2:])
+            if i > 0 and toks[i - 1][0] == 'a':
+                out.append(toks[:i - 1] + toks[i + 1:])
+            if i + 1 < n and toks[i + 1][0] == 't':
+                out.append(toks[:i] + toks[i + 2:])
+            out.append(toks[:i] + toks[i + 1:])
+    seen, uniq = set(), []
+    for c in out:
+        key = tuple(c)
+        if c and key not in seen and len(c) < n:
+            seen.add(key)
+            uniq.append(c)
+    return uniq
+
+
 def shrink(d: Disagreement) -> Disagreement:
-    return d
+    """greedy delta debugging on the token list, keeping `real parser != EBNF reference, no known trigger`"""
+    if not isinstance(d.case, dict) or 'line' not in d.case or d.what != 'tree-vs-ebnf':
+        return d
+    ver, toks = parse_line(d.case['line'])
+    best = d
+    for _ in range(40):
+        V = VInfo(ver, tables()[ver])
+
+        def plausible(c):
+            for i, t in enumerate(c):
+                typed_before = i > 0 and c[i - 1][0] == 'o' and c[i - 1][1] in V.typed
+                if (t[0] == 't') != typed_before:
+                    return False
+                if t[0] == 'a' and i > 0 and c[i - 1][0] in ('a', 't', 'c'):
+                    return False
+            return out_of_fragment(V, c) is None
+        cands = [(ver, c) for c in reductions(toks) if plausible(c)]
+        if not cands:
+            break
+        sub = Run(PROP, 'quick', 0)
+        compare_tokens(sub, cands, origin='shrink')
+        good = [x for x in sub.disagreements if x.kind == 'violation' and x.what == 'tree-vs-ebnf' and not x.tags]
+        if not good:
+            break
+        good.sort(key=lambda x: len(x.case['line']))
+        best = good[0]
+        ver, toks = parse_line(best.case['line'])
+    return best
 
 
 # ----------------------------------------------------------------------------------- body
@@ -1043,7 +1121,7 @@ def correspond(run: Run) -> None:
     tabs = tables()
     rng = run.rng
     cases = corpus_cases()
-    n = run.scale(2500, 40000)
+    n = run.scale(6000, 60000)
     skipped = {}
     while len(cases) < n:
         v = rng.choice(VERSIONS)
@@ -1096,7 +1174,7 @@ def body(run: Run) -> int:
     run.assumptions += ['operands are abstract: which primary expressions may occur as path steps or call targets is outside the level table',
                         'lexical constraint xgc:occurrence-indicators (type followed by + * ?) is outside the level table',
                         'observation is the syntactic phase tdop.Parser.parse; static evaluation in XPath1Parser.parse is not part of C04']
-    run.prove(['EPV.Props.C04', 'EPV.Props.C04Tables'], ['EPV.Lemmas.PrattTables'])
+    run.prove(['EPV.Props.C04', 'EPV.Props.C04Tables'], ['EPV.Lemmas.PrattTables', 'EPV.Lemmas.PrattComplete'])
     try:
         correspond(run)
     except DriverError as e:
